@@ -44,6 +44,8 @@ structure RState where
   ghosted : List Nat := []
   /-- (worker, item) pairs unlocked but whose `merged` event was not consumed yet -/
   unlocked : List (Nat × Item) := []
+  /-- the log carries lock/unlock events: then every `merged` must be preceded by its own pair -/
+  lockEvents : Bool := false
 
 def fateOf (ws : List (List WEv)) (x : Item) : Fate :=
   if ws.any (fun evs => evs.any fun e => match e with | .rejected i => i == x | _ => false) then .reject
@@ -105,7 +107,7 @@ def movesAll (fate : Item → Fate) (r : RState) : List RState :=
           if enabled size1 s (.recv k) && s.queue.head? == some none then
             [adv (step fate s (.recv k)) evs' 1] else []
         | .merged i :: evs' =>
-          if s.workers.getD k .exited == .holding i && fate i == .ok then
+          if !r.lockEvents && s.workers.getD k .exited == .holding i && fate i == .ok then
             match applyAll fate s [.parsed k, .lock k, .mergeEntry k, .unlock k] with
             | some s' => if s'.workers.getD k .exited == .idle then [adv s' evs' 4] else []
             | none => []
@@ -200,7 +202,25 @@ def maxBacklog (order : List Char) : Nat :=
     else if c == 'r' then (sends, recvs + 1, mx)
     else acc) (0, 0, 0)).2.2
 
-/-- `pipe.replay <n> <rxMain 0|1> P:1,2,3 M:j,t,t,w,w W:r1,m1,s,e W:r2,m2,s,e [O:ssrsr…] [PD] [G]`;
+/-- Mutual exclusion from the order of the `lock` / `unlock` log lines of all consumers (`X:0l,0u,1l,…`):
+both lines are written while the mutex is held, so a section must be closed by its own worker
+before any other opens. `none` = fine, `some k` = position of the offending event. -/
+def lockOrderViolation (evs : List String) : Option Nat :=
+  let rec go (i : Nat) (held : Option String) : List String → Option Nat
+    | [] => none
+    | e :: rest =>
+      let w := String.ofList e.toList.dropLast
+      if e.endsWith "l" then
+        (match held with
+         | none => go (i + 1) (some w) rest
+         | some _ => some i)
+      else
+        (match held with
+         | some h => if h == w then go (i + 1) none rest else some i
+         | none => some i)
+  go 0 none evs
+
+/-- `pipe.replay <n> <rxMain 0|1> P:1,2,3 M:j,t,t,w,w W:r1,m1,s,e W:r2,m2,s,e [O:ssrsr…] [X:0l,0u,…] [PD] [G]`;
 `O:` is the order of send/recv log lines (capacity check), `PD` says the producer thread panicked
 after its last logged send (not through a failed send), a trailing `G` says the process ended
 through `process::exit(1)` while workers were still running -/
@@ -220,16 +240,23 @@ def handlePipeReplay : List String → String
       let ghost := ws.contains "G"
       let pd := ws.contains "PD"
       let order := ws.find? (·.startsWith "O:")
+      let allToks := ws
       let ws := ws.filter fun t => t.startsWith "W:"
       let wevs ← ws.mapM fun w => (splitList (w.drop 2).toString ",").mapM parseWEv
       guard (wevs.length = n)
       let backlog := match order with | some o => maxBacklog (o.drop 2).toString.toList | none => 0
+      let lockViolation := match allToks.find? (·.startsWith "X:") with
+        | some x => lockOrderViolation (splitList (x.drop 2).toString ",")
+        | none => none
       if backlog > 2 * n + n then
         pure s!"rejected capacity backlog={backlog} bound={2 * n + n}"
+      else if let some k := lockViolation then
+        pure s!"rejected mutex overlapping-lock-sections at={k}"
       else
         let fate := fateOf wevs
         let s0 := init n (rx == "1") (prod ++ unsent)
-        pure (replayLog fate 200000 [{ s := s0, prod := prod, ws := wevs, mainEvs := mevs, unsent := extra, prodDies := pd, ghost := ghost }] [])
+        pure (replayLog fate 200000 [{ s := s0, prod := prod, ws := wevs, mainEvs := mevs, unsent := extra, prodDies := pd, ghost := ghost,
+                                            lockEvents := allToks.any (·.startsWith "X:") }] [])
     go.getD "bad-op"
   | _ => "bad-op"
 
